@@ -1040,6 +1040,9 @@ def m_where(I, c, a, b):
     return CT.ew(sc_where, c, a_, b_, dtype=dt)
 
 
+METHODS["where"] = lambda I, t, c, o: m_where(I, c, t, o)  # the METHOD form t.where(c, o) is torch.where(c, t, o)
+
+
 @method("masked_fill")
 def m_masked_fill(I, t, mask, value):
     if isinstance(value, CT):
